@@ -19,8 +19,10 @@ RULES = {
 # recorder plans: (mode, obs, extra args) with a weight (number of shards out of 16) and events per shard
 PLANS = {
     "C01": dict(
-        quick=[("play", "legal", ["-plies", "50"], 8, 6000), ("positions", "legal", [], 6, 4000), ("uciperft", "", [], 2, 220)],
-        thorough=[("play", "legal", ["-plies", "70"], 8, 60000), ("positions", "legal", [], 6, 40000), ("uciperft", "", [], 2, 2500)]),
+        quick=[("play", "legal", ["-plies", "50"], 7, 6000), ("positions", "legal", [], 5, 4000), ("shuffle", "legal", ["-plies", "200"], 2, 5000),
+               ("uciperft", "", [], 2, 220)],
+        thorough=[("play", "legal", ["-plies", "70"], 7, 60000), ("positions", "legal", [], 5, 40000), ("shuffle", "legal", ["-plies", "400"], 2, 50000),
+                  ("uciperft", "", [], 2, 2500)]),
     "C02": dict(
         quick=[("play", "fen", ["-plies", "60"], 10, 8000), ("shuffle", "fen", ["-plies", "170"], 3, 6000),
                ("ucipos", "", ["-plies", "40"], 3, 250)],
